@@ -64,27 +64,62 @@ def restore_rule(prog: Program, rep, RID: str, modname: str, fname: str):
         probs.append(f"expected one 'remove forward edge' and one 'add reversed edge' edit, found {len(n_fwd_removed)} / {len(n_rev_added)}")
     # restore: pop from adj_dict[v] and append v to adj_dict[u] with (u, v) = (p[i], p[i+1]) over range(len(p) - 1)
     if isinstance(rst, ast.For):
-        it = norm(rst.iter).replace(" ", "")
-        if it != "range(len(p)-1)":
-            probs.append(f"restore loop ranges over `{norm(rst.iter)}` instead of all path positions range(len(p) - 1)")
-        defs = {}
-        for s in rst.body:
-            if isinstance(s, ast.Assign) and isinstance(s.targets[0], ast.Tuple) and isinstance(s.value, ast.Tuple):
-                for t, v in zip(s.targets[0].elts, s.value.elts):
-                    defs[norm(t)] = norm(v)
-        iv = norm(rst.target)
-        pops = [m for m in rm if m.func.attr == "pop"]
-        apps = [m for m in rm if m.func.attr == "append"]
-        if len(pops) != 1 or len(apps) != 1 or len(rm) != 2:
-            probs.append(f"restore performs {[m.func.attr for m in rm]} (must be exactly one pop and one append)")
+        # the loop visits the consecutive pairs (TAIL, HEAD) of the path: `for i in range(len(P) - 1)` with P[i], P[i + 1], or
+        # `for a, b in zip(P, P[1:])`; names are free
+        ren = {}
+        P = None
+        it = rst.iter
+        itn = norm(it).replace(" ", "")
+        m = re.fullmatch(r"range\((?:0,)?len\((\w+)\)-1\)", itn)
+        if m and isinstance(rst.target, ast.Name):
+            P = m.group(1)
+            iv = rst.target.id
+            ren = {f"{P}[{iv}]": "TAIL", f"{P}[{iv}+1]": "HEAD"}
         else:
-            pv = defs.get(norm(pops[0].func.value.slice), norm(pops[0].func.value.slice))
-            au = defs.get(norm(apps[0].func.value.slice), norm(apps[0].func.value.slice))
-            av = defs.get(norm(apps[0].args[0]), norm(apps[0].args[0])) if apps[0].args else "?"
-            if pv.replace(" ", "") != f"p[{iv}+1]":
-                probs.append(f"reversed edge is popped from adj_dict[{pv}] instead of adj_dict[p[{iv} + 1]]")
-            if au.replace(" ", "") != f"p[{iv}]" or av.replace(" ", "") != f"p[{iv}+1]":
-                probs.append(f"forward edge re-inserted as adj_dict[{au}].append({av}) instead of adj_dict[p[{iv}]].append(p[{iv} + 1])")
+            m = re.fullmatch(r"zip\((\w+),\1\[1:\]\)", itn)
+            if m and isinstance(rst.target, ast.Tuple) and len(rst.target.elts) == 2 and all(isinstance(x, ast.Name) for x in rst.target.elts):
+                P = m.group(1)
+                ren = {rst.target.elts[0].id: "TAIL", rst.target.elts[1].id: "HEAD"}
+        if P is None:
+            m2 = re.fullmatch(r"range\((?:0,)?len\((\w+)\)-(\d+)\)|range\((\d+),len\((\w+)\)-1\)", itn)
+            if m2:
+                probs.append(f"restore loop ranges over `{norm(rst.iter)}` instead of all path positions range(len(p) - 1)")
+            else:
+                raise AnalysisError(f"{fname}: restore loop `{norm(rst.iter)}` is not a recognised walk over the consecutive pairs of the path")
+        # the path restored must be the path whose edges were edited
+        edit_paths = set()
+        for i_, st_, ms_ in with_m[:-1]:
+            for w_ in re.findall(r"\b(\w+)\.append\(", norm(st_)):
+                if w_ != "adj_dict":
+                    edit_paths.add(w_)
+            for w_ in re.findall(r"zip\((\w+),", norm(st_).replace(" ", "")) + re.findall(r"len\((\w+)\)", norm(st_)):
+                edit_paths.add(w_)
+        if P is not None and edit_paths and P not in edit_paths:
+            probs.append(f"the restore loop walks `{P}`, the edits were made along {sorted(edit_paths)}")
+        defs = {}
+        for s_ in rst.body:
+            if isinstance(s_, ast.Assign) and isinstance(s_.targets[0], ast.Tuple) and isinstance(s_.value, ast.Tuple):
+                for t, v in zip(s_.targets[0].elts, s_.value.elts):
+                    defs[norm(t)] = norm(v)
+            elif isinstance(s_, ast.Assign) and isinstance(s_.targets[0], ast.Name):
+                defs[norm(s_.targets[0])] = norm(s_.value)
+
+        def C(e):
+            t = norm(e)
+            t = defs.get(t, t).replace(" ", "")
+            return ren.get(t, t)
+        pops = [m_ for m_ in rm if m_.func.attr == "pop"]
+        apps = [m_ for m_ in rm if m_.func.attr == "append"]
+        if len(pops) != 1 or len(apps) != 1 or len(rm) != 2:
+            probs.append(f"restore performs {[m_.func.attr for m_ in rm]} (must be exactly one pop and one append)")
+        elif P is not None:
+            pv = C(pops[0].func.value.slice)
+            au = C(apps[0].func.value.slice)
+            av = C(apps[0].args[0]) if apps[0].args else "?"
+            if pv != "HEAD":
+                probs.append(f"reversed edge is popped from adj_dict[{pv}] instead of the head of each path edge")
+            if au != "TAIL" or av != "HEAD":
+                probs.append(f"forward edge re-inserted as adj_dict[{au}].append({av}) instead of adj_dict[tail].append(head)")
             if pops[0].args:
                 probs.append("pop with an index: does not remove the reversed edge appended last")
     # post-dominance: no return / raise before the restore block, and it is a top-level statement
